@@ -214,6 +214,25 @@ def r3_argument_binding(ctx: Ctx) -> None:
                {const_str(x.args[0]) for x in ast.walk(a) if isinstance(x, ast.Call) and isinstance(x.func, ast.Attribute) and x.func.attr == "get" and x.args} if a is not None else set()
         ctx.check(keys == {key}, f"generate_map:{p}", f"Bus.map parameter `{p}` receives the `.map` attribute {sorted(k for k in keys if k)}; must be `{key}`")
         ctx.check(key in written, f"parse_map:{key}", "the parser accepts the attribute the generator reads")
+    # attribute values are NUMBER tokens (decimal, 0x hexadecimal, 0b binary): they are decoded base-aware
+    n_dec = 0
+    for c in calls_in(pm.node):
+        if not (c.args and isinstance(c.args[0], ast.Attribute) and c.args[0].attr == "value"):
+            continue
+        cn = call_name(c) or ""
+        if cn in ("expect_token", "accept_token", "ParserSyntaxError", "cast", "len", "str"):
+            continue
+        n_dec += 1
+        base = unparse(c.args[1]) if len(c.args) > 1 else (unparse(kwarg(c, "base")) if kwarg(c, "base") is not None else None)
+        if cn in ("ast.literal_eval", "literal_eval", "eval_number") or (cn == "int" and base == "0"):
+            ctx.ok(f"parse_map:{unparse(c)[:40]}", "decodes the literal in the base its prefix says")
+        elif cn == "int":
+            ctx.fail(f"parse_map:{unparse(c)[:40]}", f"reads every `.map` number in base {base or 10}: a literal written in another base the scanner accepts "
+                     "(decimal / 0x / 0b) is misread or refused, so the mapping differs from the one written")
+        else:
+            raise AnalysisError(f"parse_map: number decoder `{unparse(c)[:50]}` not modelled")
+    ctx.count("map_number_decoders", n_dec)
+    ctx.floor("map_number_decoders", 2)
     wdef = [x for x in ast.walk(bound["writeable"]) if isinstance(x, ast.Call)] if "writeable" in bound else []
     ctx.check(bool(wdef) and len(wdef[0].args) == 2 and unparse(wdef[0].args[1]) == "False", "generate_map:writable-default", "a map is read-only (ROM) unless declared writable")
 
